@@ -1,7 +1,7 @@
 (* C19 correspondence: a map request + load_intermediate flag, the model's observation of the two xarray
    datasets, and the executable statement of the property.
    Observation (both sides):
-     ok [ valid? ; identical? ; same? ; vars ; coords ; sels ]   |   err class
+     ok [ [valid?; known-finding region?] ; identical? ; same? ; vars ; coords ; sels ]   |   err class
      vars   = [[name; dims; value] ...]        data variables, sorted by name
      coords = [[name; dims; value] ...]        coordinates, sorted by name (a zipped coordinate's values
                                                are the tuples "[a,b]" of its sources' values)
@@ -59,8 +59,8 @@ Record dsobs := { o_same : bool; o_vars : list entry; o_coords : list entry; o_s
 
 Definition render_entry (e : entry) : sx := SL [SS (fst e); SL (map SS (fst (snd e))); snd (snd e)].
 Definition render_sel (e : selent) : sx := SL [SS (fst (fst e)); SS (snd (fst e)); SL (snd e)].
-Definition render (v : bool) (d : dsobs) : sx :=
-  SL [SS (s "ok"); SB v; SB (o_same d); SB (o_same d);
+Definition render (v : sx) (d : dsobs) : sx :=
+  SL [SS (s "ok"); v; SB (o_same d); SB (o_same d);
       SL (map render_entry (o_vars d)); SL (map render_entry (o_coords d)); SL (map render_sel (o_sels d))].
 
 Fixpoint omapM {A B} (f : A -> option B) (l : list A) : option (list B) :=
@@ -240,9 +240,38 @@ Definition model_obs (q : req) : result dsobs :=
   do ds <- dataset_vars (specs_of q) (input_names q) (output_names q) (q_li q);
   ds_obs q (outv_of (r_out st)) (forallb (fun x => val_eqb (snd (fst x)) (snd x)) (r_out st)) ds.
 
+(* ---------- the regions of the known findings (decided on the request and its denotation) ---------- *)
+(* some index name is used with two sizes (C19-axis-name-reused-with-different-sizes) *)
+Definition region_conflict (q : req) : bool :=
+  match denote_run sym_body (q_funcs q) (q_inputs q) (q_internal q) with
+  | Ok den => sizes_conflict (axis_sizes q den)
+  | Err _ => false
+  end.
+(* some output without MapSpec is an array of rank >= 2 (C19-unmapped-array-output-not-storable) *)
+Definition region_plain (q : req) : bool :=
+  match denote_run sym_body (q_funcs q) (q_inputs q) (q_internal q) with
+  | Ok den => existsb (fun f => match fspec f with
+                                | None => existsb (fun o => match dict_get (d_out den) o with
+                                                            | Some (VA a) => 1 <? length (shp a)
+                                                            | _ => false end) (fouts f)
+                                | Some _ => false end) (q_funcs q)
+  | Err _ => false
+  end.
+(* selection by the value of a zipped coordinate (C19-zipped-coordinate-not-selectable): a kind 1 case in
+   which some data variable carries a zipped (multi-source) coordinate, i.e. a selection is attempted *)
+Definition region_zsel (q : req) : bool :=
+  if q_kind q =? 0 then false
+  else match model_obs q with Ok d => negb (is_nil (o_sels d)) | Err _ => false end.
+Definition region_req (q : req) : bool := region_conflict q || region_plain q || region_zsel q.
+
+
+(* the second element of an "ok" observation: [the request is valid; it lies in a known-finding region]
+   (the harness sends [true; "this observation is classified as a known finding"], so both the validity of
+   every generated request and the coincidence of the regions with the harness' classification are part of
+   the correspondence) *)
 Definition run_req (q : req) : sx :=
   match model_obs q with
-  | Ok d => render (valid_req q) d
+  | Ok d => render (SL [SB (valid_req q); SB (region_req q)]) d
   | Err e => SErr e
   end.
 
@@ -385,31 +414,8 @@ Definition spec_ok (c : case) (o : sx) : bool :=
   | Err _ => true
   end.
 
-(* ---------- the regions of the known findings (decided on the request and its denotation) ---------- *)
-(* some index name is used with two sizes (C19-axis-name-reused-with-different-sizes) *)
-Definition region_conflict (q : req) : bool :=
-  match denote_run sym_body (q_funcs q) (q_inputs q) (q_internal q) with
-  | Ok den => sizes_conflict (axis_sizes q den)
-  | Err _ => false
-  end.
-(* some output without MapSpec is an array of rank >= 2 (C19-unmapped-array-output-not-storable) *)
-Definition region_plain (q : req) : bool :=
-  match denote_run sym_body (q_funcs q) (q_inputs q) (q_internal q) with
-  | Ok den => existsb (fun f => match fspec f with
-                                | None => existsb (fun o => match dict_get (d_out den) o with
-                                                            | Some (VA a) => 1 <? length (shp a)
-                                                            | _ => false end) (fouts f)
-                                | Some _ => false end) (q_funcs q)
-  | Err _ => false
-  end.
-(* selection by the value of a zipped coordinate (C19-zipped-coordinate-not-selectable): a kind 1 case in
-   which some data variable carries a zipped (multi-source) coordinate, i.e. a selection is attempted *)
-Definition region_zsel (q : req) : bool :=
-  negb (q_kind q =? 0)
-  && match model_obs q with Ok d => negb (is_nil (o_sels d)) | Err _ => false end.
-
 Definition known_region (c : case) : bool :=
   match resolve c with
-  | Ok q => region_conflict q || region_plain q || region_zsel q
+  | Ok q => region_req q
   | Err _ => false
   end.
